@@ -71,17 +71,28 @@ var c06templates = []c06template{
 	{"field-name-tight", "SELECT ", "AS g FROM m", true, "SelectStatement.Fields[].Field.Expr.VarRef.Val", false, true},
 	{"where-string-tight", "SELECT f FROM m WHERE k =", "AND j = 'tail'", false, "SelectStatement.Condition.BinaryExpr.LHS.BinaryExpr.RHS.StringLiteral.Val", false, true},
 	{"delete-tight", "DELETE FROM ", "WHERE host = 'a'", true, "DeleteSeriesStatement.Sources[].Measurement.Name", false, true},
+	// directly behind every comparison operator that is scanned with look-ahead
+	{"where-string-after-less", "SELECT f FROM m WHERE k<", "AND j = 'tail'", false, "SelectStatement.Condition.BinaryExpr.LHS.BinaryExpr.RHS.StringLiteral.Val", false, true},
+	{"where-string-after-greater", "SELECT f FROM m WHERE k>", "AND j = 'tail'", false, "SelectStatement.Condition.BinaryExpr.LHS.BinaryExpr.RHS.StringLiteral.Val", false, true},
+	{"where-string-after-not-equal", "SELECT f FROM m WHERE k!=", "AND j = 'tail'", false, "SelectStatement.Condition.BinaryExpr.LHS.BinaryExpr.RHS.StringLiteral.Val", false, true},
+	{"where-name-after-less-equal", "SELECT f FROM m WHERE 1<=", "AND j = 'tail'", true, "SelectStatement.Condition.BinaryExpr.LHS.BinaryExpr.RHS.VarRef.Val", false, true},
 }
 
+// c06params: the texts are read by a parser that has values bound under the short names the alphabet can spell. A
+// quoted `$n` is a string or a name, not a placeholder, whatever is bound.
+var c06params = map[string]interface{}{"n": int64(5), "a": map[string]interface{}{"identifier": "zz"}, "S": "bound", "an": 1.5, "na": true, "_": "u", "1": int64(1), "": "empty"}
+
 func c06parse(t c06template, text string) (interface{}, error) {
+	p := influxql.NewParser(strings.NewReader(text))
+	p.SetParams(c06params)
 	if t.query {
-		q, err := influxql.ParseQuery(text)
+		q, err := p.ParseQuery()
 		if err != nil {
 			return nil, err
 		}
 		return q, nil
 	}
-	s, err := influxql.ParseStatement(text)
+	s, err := p.ParseStatement()
 	if err != nil {
 		return nil, err
 	}
